@@ -252,6 +252,9 @@ class Ctx(object):
                     if line not in self.known:
                         self.known.append(line)
                     return
+        if len(self.violations) >= 20:
+            self.counts['further_violations_not_recorded'] += 1
+            return
         os.makedirs(os.path.join(VERIF, 'replays'), exist_ok=True)
         body = json.dumps(payload, sort_keys=True, default=str)
         name = '%s-%s.json' % (self.prop, hashlib.md5(body.encode()).hexdigest()[:10])
@@ -263,8 +266,7 @@ class Ctx(object):
         payload['tier'] = self.tier
         with open(path, 'w') as f:
             json.dump(payload, f, indent=1, sort_keys=True, default=str)
-        if len(self.violations) < 50:
-            self.violations.append((what, path, no_input))
+        self.violations.append((what, path, no_input))
 
 
 def load_findings():
